@@ -5,6 +5,18 @@ definitions regenerated from the source every run; whole-stream correspondence i
 through six entry points (hook, simple file, VP8X alpha flag set/clear, single ANMF frame alpha flag set/clear)."""
 from checks.common import run_components, finish_standard, replay_standard
 
+def okh(line):
+    """results above 16384 pixels are compared as FNV-1a 64 hashes (harness c01 and the oracle print them that way;
+    c01spec prints full pixels)"""
+    w = line.split(' ', 3)
+    if len(w) == 4 and w[0] == 'OK' and int(w[1]) * int(w[2]) > 16384:
+        h = 0xcbf29ce484222325
+        for b in bytes.fromhex(w[3]):
+            h = ((h ^ b) * 0x100000001b3) & 0xffffffffffffffff
+        return 'OKH %s %s %016x' % (w[1], w[2], h)
+    return line
+
+
 COMPONENTS = [
     {'name': 'c01', 'oracle': True, 'what': 'LosslessDecoder::decode_frame vs Spec.VP8L.decode (and vs libwebp natively, all wrappings)'},
     {'name': 'c01spec', 'oracle': True, 'what': 'adequacy: Spec.VP8L.decode vs libwebp WebPDecodeRGBA', 'escalate': False},
